@@ -22,9 +22,18 @@
 EXTENDS Integers, Sequences, FiniteSets, TLC
 
 CONSTANTS Variant,  \* "fixed" = tree with the F-C03-3 repair (curve abandoned when a point reaches OR passes the
-                    \* start of the path), "pinned" = the original strict test (index underflow, selftest only)
+                    \* start of the path), "pinned" = the original strict test (index underflow, selftest only),
+                    \* "noabs" = "fixed" with the .abs() dropped in the test that decides whether a curve is needed
+                    \* (selftest only: no curve is built after a sign-encoded zone)
           E,        \* rounding tolerance of recorded offsets (0 on the model's lattice, 1 on quantised traces)
           VPerO     \* speed units per offset unit per second (1 on the lattice, 2^16/2^6 on traces)
+
+(* A speed point may carry a NEGATIVE value: the sign is an encoding, the limit is the magnitude          *)
+(* (min_speed, track/link/speed/speed_limit.rs:3-9, keeps the smaller magnitude and makes the result        *)
+(* negative as soon as one side is; PathTpc stores the signed value; recalc takes .abs() at every use).     *)
+(* Every Level-A predicate below therefore reads a speed point through V.                                   *)
+Abs(x) == IF x < 0 THEN -x ELSE x
+V(spp, j) == Abs(spp[j][2])
 
 Max2(a, b) == IF a > b THEN a ELSE b
 Min2(a, b) == IF a < b THEN a ELSE b
@@ -37,7 +46,7 @@ SetMax(S) == CHOOSE m \in S : \A c \in S : c <= m
 (* extent (inflated by the rounding tolerance) contains q. With E = 0 this is the right-continuous *)
 (* step function itself. Positions before the first point take the first limit.                    *)
 ZonesAt(sp, q) == {j \in 1..Len(sp) : (j = 1 \/ sp[j][1] - E <= q) /\ (j = Len(sp) \/ q < sp[j+1][1] + E)}
-PostedHi(sp, q) == SetMax({sp[j][2] : j \in ZonesAt(sp, q)})
+PostedHi(sp, q) == SetMax({V(sp, j) : j \in ZonesAt(sp, q)})
 
 (* length a stretch must have to be non-empty whatever the rounding *)
 Solid == Max2(1, 2 * E)
@@ -53,7 +62,7 @@ TableSafeOf(sp, end, pts) ==
          \A j \in 1..Len(sp) :
            LET a == Max2(Max2(p[1], 0), sp[j][1])
                b == Min2(Min2(pts[k-1][1], end), IF j < Len(sp) THEN sp[j+1][1] ELSE end)
-           IN b - a >= Solid => p[2] <= sp[j][2]
+           IN b - a >= Solid => p[2] <= V(sp, j)
 
 TargetLeLimitOf(pts) == \A k \in 1..Len(pts) : pts[k][4] <= pts[k][3]
 
@@ -79,14 +88,14 @@ MonotoneOf(pts) ==
 (* three steps of travel, by a decrease of the limit or by the end of authority (limit 0).          *)
 (* Dec = deceleration in speed units per second.                                                    *)
 RECURSIVE MaxV(_, _, _)
-MaxV(sp, i, j) == IF j <= i THEN sp[i][2] ELSE Max2(sp[j][2], MaxV(sp, i, j-1))
+MaxV(sp, i, j) == IF j <= i THEN V(sp, i) ELSE Max2(V(sp, j), MaxV(sp, i, j-1))
 Need(Dec, vh, vlo) == (3 * (vh * vh - vlo * vlo)) \div (4 * Dec) + 3 * vh
 ShortWindowOf(Dec, sp, end) ==
   \E i \in 2..Len(sp) :
-    /\ sp[i][2] > sp[i-1][2]
+    /\ V(sp, i) > V(sp, i-1)
     /\ \/ \E j \in (i+1)..Len(sp) :
-            /\ sp[j][2] < MaxV(sp, i, j-1)
-            /\ sp[j][1] - sp[i][1] < Need(Dec, MaxV(sp, i, j-1), sp[j][2])
+            /\ V(sp, j) < MaxV(sp, i, j-1)
+            /\ sp[j][1] - sp[i][1] < Need(Dec, MaxV(sp, i, j-1), V(sp, j))
        \/ end - sp[i][1] < Need(Dec, MaxV(sp, i, Len(sp)), 0)
 
 ----------------------------------------------------------------------------
@@ -100,7 +109,7 @@ RECURSIVE Back(_, _, _)
 Back(sp, idx, off) == IF idx = 0 THEN 0 ELSE IF off <= sp[idx][1] THEN Back(sp, idx-1, off) ELSE idx
 
 (* "Exit if the braking point reached or passed the beginning of the path" (braking_point.rs:144-147) *)
-Passed(o) == IF Variant = "fixed" THEN o <= 0 ELSE o < 0
+Passed(o) == IF Variant = "pinned" THEN o < 0 ELSE o <= 0
 
 (* the inner loop; returns <<points, idx, underflow>> *)
 RECURSIVE Curve(_, _, _)
@@ -108,7 +117,7 @@ Curve(sp, pts, idx0) ==
   LET bp  == pts[Len(pts)]
       idx == Back(sp, idx0, bp[1])
   IN IF idx = 0 THEN <<pts, 0, TRUE>>
-     ELSE LET lim == sp[idx][2] IN
+     ELSE LET lim == Abs(sp[idx][2]) IN                    \* braking_point.rs:100 (and :131 below)
        IF lim < bp[2] + A
        THEN \* "exit after adding a couple of points if the next braking curve point will exceed the speed limit"
             LET p2 == Append(pts, Pt(bp[1] - lim, lim, bp[4])) IN      \* carries bp's target into this zone
@@ -122,11 +131,11 @@ Curve(sp, pts, idx0) ==
 RECURSIVE Outer(_, _, _)
 Outer(sp, pts, idx) ==
   IF idx = 0 THEN <<pts, FALSE>>
-  ELSE IF sp[idx][2] > pts[Len(pts)][2]
+  ELSE IF (IF Variant = "noabs" THEN sp[idx][2] ELSE Abs(sp[idx][2])) > pts[Len(pts)][2]    \* braking_point.rs:91
        THEN LET r == Curve(sp, pts, idx) IN
             IF r[3] THEN <<r[1], TRUE>>       \* the code underflows its usize index here (panic)
-            ELSE Outer(sp, Append(r[1], Pt(sp[r[2]][1], sp[r[2]][2], sp[r[2]][2])), r[2] - 1)
-       ELSE Outer(sp, Append(pts, Pt(sp[idx][1], sp[idx][2], sp[idx][2])), idx - 1)
+            ELSE Outer(sp, Append(r[1], Pt(sp[r[2]][1], Abs(sp[r[2]][2]), Abs(sp[r[2]][2]))), r[2] - 1)
+       ELSE Outer(sp, Append(pts, Pt(sp[idx][1], Abs(sp[idx][2]), Abs(sp[idx][2]))), idx - 1)     \* braking_point.rs:150-154
 
 (* <<table, index underflow>> *)
 Recalc(sp, end) == Outer(sp, << Pt(end, 0, 0) >>, Len(sp))
